@@ -5,9 +5,9 @@ Q=/var/tmp/suite/queue.txt; DONE=/var/tmp/suite/queue.done; touch $Q $DONE
 while true; do
   line=$(grep -v -x -F -f $DONE $Q | head -1)
   if [ -z "$line" ]; then sleep 30; continue; fi
-  id=$(echo $line | cut -d' ' -f1); patch=$(echo $line | cut -d' ' -f2)
+  id=$(echo $line | cut -d' ' -f1); patch=$(echo $line | cut -s -d' ' -f2)   # a line without a second field = no patch (the tree as it is)
   echo "== $id start $(date +%T)" >> /var/tmp/suite/queue.log
-  nice -n 10 /verif/tools/suite_run.sh /var/tmp/suite/repo /var/tmp/suite/mut_$id.log "$patch" > /var/tmp/suite/mut_$id.out 2>&1
+  SUITE_FROM_HEAD=1 nice -n 10 /verif/tools/suite_run.sh /var/tmp/suite/repo /var/tmp/suite/mut_$id.log "$patch" > /var/tmp/suite/mut_$id.out 2>&1
   echo "== $id done $(date +%T): $(tr '\n' ' ' < /var/tmp/suite/mut_$id.log.summary)" >> /var/tmp/suite/queue.log
   echo "$line" >> $DONE
 done
